@@ -18,6 +18,8 @@ plan = {
            {"op": "identity", "sids": [...]}          # the authenticated caller's group memberships from now on
            {"op": "partition", "on": bool},
            {"op": "app_random_seed", "value": n},     # the application calls random.seed(n)
+           # async group members: "chain": c = operations with the same c run sequentially inside one task; "inner": "sync" = the
+           # blocking API is called from inside that coroutine,
            {"op": "dc_failover", "host": h}  (the DC goes away, another one with the same keys answers under the name h; DNS follows),
            # fl "thread" + group g: the group's operations are sync calls made by caller threads that share the process, interleaved at
            # line (or opcode) events inside dpapi_ng by simworld.threads (policy: plan["threads"], explicit per group: plan["thread_scripts"])
@@ -499,7 +501,11 @@ def execute_plan(plan: dict, kdf_limit: int = 300, keep_events: bool = False) ->
                             try:
                                 if name == "unprotect" and args[0] is None:
                                     raise ValueError("source blob missing")
-                                val = await fn(*args, **kw)
+                                if ot.op.get("inner") == "sync":
+                                    # application code that calls the blocking API from inside a coroutine (same task, same context)
+                                    val = (dpapi_ng.ncrypt_protect_secret if name == "protect" else dpapi_ng.ncrypt_unprotect_secret)(*args, **kw)
+                                else:
+                                    val = await fn(*args, **kw)
                                 ot.outcome = drive.Outcome("ok", val)
                             except asyncio.CancelledError:
                                 raise
@@ -512,7 +518,17 @@ def execute_plan(plan: dict, kdf_limit: int = 300, keep_events: bool = False) ->
 
                         async def main():
                             lp = asyncio.get_running_loop()
-                            tasks = [lp.create_task(one(ot, mk), name=f"op{ot.idx}") for ot, mk in prepared]
+                            # operations that carry the same "chain" value run one after the other inside ONE task (one asyncio context)
+                            chains: t.Dict[t.Any, list] = {}
+                            for ot, mk in prepared:
+                                chains.setdefault(ot.op.get("chain", ("solo", ot.idx)), []).append((ot, mk))
+
+                            async def run_chain(items):
+                                for ot_, mk_ in items:
+                                    await one(ot_, mk_)
+
+                            chain_task = {key: lp.create_task(run_chain(items), name=f"op{items[0][0].idx}") for key, items in chains.items()}
+                            tasks = [chain_task[ot.op.get("chain", ("solo", ot.idx))] for ot, _mk in prepared]
                             for (ot, _mk), task in zip(prepared, tasks):
                                 if ot.op.get("cancel_after_us") is not None:
                                     # the caller gives up on this call (its own timeout) while the others go on
@@ -523,7 +539,7 @@ def execute_plan(plan: dict, kdf_limit: int = 300, keep_events: bool = False) ->
                                             task.cancel()
 
                                     lp.call_later(ot.op["cancel_after_us"] / 1e6, cancel)
-                            await asyncio.gather(*tasks, return_exceptions=True)
+                            await asyncio.gather(*chain_task.values(), return_exceptions=True)
                             for (ot, _mk), task in zip(prepared, tasks):
                                 if task.cancelled() and ot.outcome is None:
                                     ot.outcome = drive.Outcome("cancelled")
